@@ -752,6 +752,173 @@ def multi_member_archives(rng, payloads):
     return out
 
 
+# --------------------------------------------------------------------------
+# members at every nesting depth of containers that have directories
+# --------------------------------------------------------------------------
+
+def _locate(data, blob, what):
+    i = data.find(blob)
+    if i < 0 or data.find(blob, i + 1) >= 0:
+        raise RuntimeError("nested writer: cannot locate %s uniquely" % what)
+    return i
+
+
+def _nested_fields(data, hdr_len, entry, cdata_len):
+    """fields of the (single) loadable member `entry` (header + packed data) inside `data`"""
+    o = _locate(data, entry, "member")
+    return {"hdrN": (o, hdr_len), "blockdataN_head": (o + hdr_len, min(8, cdata_len)),
+            "blockdataN_tail": (o + hdr_len + max(0, cdata_len - 8), min(8, cdata_len))}, o
+
+
+def make_arc_nested(rng, payload, spark, depth, method=None):
+    """ARC 6 (type 30 directory records, closed by type 31) or Spark (method 0x82 + filetype &DDC) archive written by
+    tools/c08_writers.arc_tree: an excluded text member, then `depth` nested directories, the module inside the
+    innermost one (depth 0 = flat)."""
+    import c08_writers as W
+    method = rng.choice([2, 3, 4, 8]) if method is None else method
+    node = [("file", "SONG.MOD", payload, method)]
+    for d in range(depth):
+        node = [("file", "NOTE%d.TXT" % d, TEXT, 2), ("dir", "DIR%d" % d, node)]
+    nodes = [("file", "README", TEXT, 2)] + node
+    data = W.arc_tree(nodes, spark=spark)
+    entry = W.arc_entry("SONG.MOD", payload, method, spark)
+    hlen = 29 + (12 if spark else 0)
+    fields, o = _nested_fields(data, hlen, entry, len(entry) - hlen)
+    # the directory records on the way down (their CRC-16 of the nested archive is never verified by arc_read)
+    k = 0
+    p = 0
+    while True:
+        p = data.find(b"\x1a\x82" if spark else b"\x1a\x1e", p)
+        if p < 0 or p >= o:
+            break
+        if data[p + 2:p + 5] == b"DIR":
+            fields["dirhdr%d" % k] = (p, hlen)
+            k += 1
+        p += 1
+    return _arch("arc", "%s-depth%d-m%d" % ("spark" if spark else "arc6", depth, method), "nested.arc", data, payload, fields,
+                 crc16=True, extra={"crc_at": o + 23, "nested": depth})
+
+
+def make_arcfs_nested(rng, payload, depth, method=None):
+    """ArcFS: `depth` directory entries (bit 31 of the info word) precede the module's entry in the entry table"""
+    method = rng.choice([2, 3]) if method is None else method
+    if crc16_arc(payload) == 0:
+        return None
+    body = rle90(payload) if method == 3 else payload
+    ents = []
+
+    def entry(m, name, usize, crc, csize, info):
+        e = bytearray(36)
+        e[0] = 0x80 | m
+        e[1:12] = name.ljust(11, b"\0")
+        e[12:16] = struct.pack("<I", usize)
+        e[16:24] = struct.pack("<II", 0xFFFFFF00 | 0x3F, 0x12345678)
+        e[24] = 0x03
+        e[26:28] = struct.pack("<H", crc)
+        e[28:32] = struct.pack("<I", csize)
+        e[32:36] = struct.pack("<I", info)
+        return bytes(e)
+    ents.append(entry(2, b"README", len(TEXT), crc16_arc(TEXT), len(TEXT), 0))
+    for d in range(depth):
+        ents.append(entry(2, b"dir%d" % d, 0, 0, 0, 0x80000000 | (36 * (len(ents) + 1))))
+    mod_at = 96 + 36 * len(ents)
+    ents.append(entry(method, b"song_mod", len(payload), crc16_arc(payload), len(body), len(TEXT)))
+    for d in range(depth):
+        ents.append(bytes(36))                       # end-of-directory markers
+    ents.append(bytes(36))
+    data_offset = 96 + 36 * len(ents)
+    hdr = (b"Archive\0" + struct.pack("<IIIII", 36 * len(ents), data_offset, 200, 200, 0x0A)).ljust(96, b"\0")
+    data = hdr + b"".join(ents) + TEXT + body
+    dstart = data_offset + len(TEXT)
+    fields = {"magic": (0, 8), "hdr": (8, 20), "entryN": (mod_at, 36), "blockdataN_head": (dstart, min(8, len(body))),
+              "blockdataN_tail": (dstart + max(0, len(body) - 8), min(8, len(body)))}
+    for d in range(depth):
+        fields["direntry%d" % d] = (96 + 36 * (1 + d), 36)
+    return _arch("arcfs", "depth%d-m%d" % (depth, method), "nested.arcfs", data, payload, fields, crc16=True,
+                 extra={"crc_at": mod_at + 26, "nested": depth})
+
+
+def make_zip_nested(rng, payload, depth, streamed=False):
+    import c08_writers as W
+    path = "".join("dir%d/" % d for d in range(depth))
+    members = [("README", README, "deflated")]
+    acc = ""
+    for d in range(depth):
+        acc += "dir%d/" % d
+        if not streamed:
+            members.append((acc, b"", None))
+    meth = rng.choice(["stored", "deflated"])
+    members.append((path + "song.mod", payload, meth))
+    data = W.zip_streamed(members) if streamed else W.zip_archive(members)
+    eocd = data.rindex(b"PK\x05\x06")
+    p = struct.unpack("<I", data[eocd + 16:eocd + 20])[0]
+    fields = {"eocd": (eocd, 22)}
+    st = None
+    while data[p:p + 4] == b"PK\x01\x02":
+        nl, el, cl = struct.unpack("<HHH", data[p + 28:p + 34])
+        if data[p + 46:p + 46 + nl].endswith(b"song.mod"):
+            lho = struct.unpack("<I", data[p + 42:p + 46])[0]
+            lnl, lel = struct.unpack("<HH", data[lho + 26:lho + 30])
+            csz = struct.unpack("<I", data[p + 20:p + 24])[0]
+            st = {"cdh": p, "lho": lho, "data": lho + 30 + lnl + lel}
+            fields.update({"cdh": (p, 46), "lh": (lho, 30), "blockdataN_head": (st["data"], min(8, csz)),
+                           "blockdataN_tail": (st["data"] + max(0, csz - 8), min(8, csz))})
+        p += 46 + nl + el + cl
+    return _arch("zip", "depth%d-%s%s" % (depth, meth, "-dd" if streamed else ""), "nested.zip", data, payload, fields,
+                 extra={"zip": st, "nested": depth})
+
+
+def make_lzx_nested(rng, payload, depth):
+    import c08_writers as W
+    path = "".join("dir%d/" % d for d in range(depth))
+    data = W.lzx_archive([("song.txt", TEXT), (path + "song.mod", payload)])
+    o = data.rindex(payload)
+    hdr = o - 31 - len(path + "song.mod")
+    return _arch("lzx", "depth%d" % depth, "nested.lzx", data, payload,
+                 {"magic": (0, 10), "entryN": (hdr, 31), "blockdataN_head": (o, 8), "blockdataN_tail": (o + len(payload) - 8, 8)},
+                 extra={"nested": depth})
+
+
+def make_lha_nested(rng, payload, depth, level):
+    """LHA with -lhd- directory entries and a path prefix: libxmp/lhasa never compares the member's data CRC-16, so a
+    damaged member is *unverifiable* (counted, not a violation); still swept for aborts"""
+    import c08_writers as W
+    members = [("README", TEXT)]
+    acc = ""
+    for d in range(depth):
+        acc += "dir%d/" % d
+        members.append((acc, b""))
+    members.append(((acc if level == 0 else "") + "song.mod", payload))
+    data = W.lha_archive(members, level=level)
+    o = data.rindex(payload)
+    a = _arch("lha", "depth%d-l%d" % (depth, level), "nested.lha", data, payload,
+              {"blockdataN_head": (o, 8), "blockdataN_tail": (o + len(payload) - 8, 8)}, extra={"nested": depth})
+    a["unverifiable"] = True
+    return a
+
+
+def nested_archives(rng, payload, quick=True):
+    """the module as a member at nesting depth 0, 1, 2 of every container that has directories"""
+    out = []
+    for spark in (False, True):
+        for depth in (1, 2):
+            out.append(make_arc_nested(rng, payload, spark, depth, method=2))               # stored: only the CRC-16 can notice
+            out.append(make_arc_nested(rng, payload, spark, depth, method=rng.choice([3, 4, 8])))
+    out.append(make_arc_nested(rng, payload, False, 0, method=2))
+    out.append(make_arc_nested(rng, payload, True, 0, method=2))
+    for depth in (1, 2):
+        out.append(make_arcfs_nested(rng, payload, depth, method=2))
+        out.append(make_zip_nested(rng, payload, depth))
+        out.append(make_lzx_nested(rng, payload, depth))
+        out.append(make_lha_nested(rng, payload, depth, level=depth - 1))
+    out.append(make_zip_nested(rng, payload, 1, streamed=True))
+    out = [a for a in out if a is not None]
+    for a in out:
+        a["pname"] = "nested"
+        a["budget"] = (120, 40, 15)
+    return out
+
+
 SEEDS = [("arc", "arc-method2", True), ("arc", "arc-method3", True), ("arc", "arc-method4", True),
          ("arc", "arc-method8-rle", True), ("arc", "arc-method9", True), ("arcfs", "arcfsdata", True),
          ("lzx", "lzxdata", False), ("lzx", "lzxstore", False),
